@@ -284,9 +284,12 @@ def Node.deletePodByUid (n : Node) (uid : Nat) : Node :=
     | _, _ => n.sums
   Node.cleanup { n with pods := pods, sums := sums }
 
-/-- nodeInfo.AddOrUpdateNodeMetric: `updateTime` is only overwritten when the report carries one. -/
+/-- the report's time as the cache keeps it (`none` = zero time when Status.UpdateTime is nil). -/
+def reportTime (m : Metric) : Option Int := if m.hasUpd then some m.updT else none
+
+/-- nodeInfo.AddOrUpdateNodeMetric: everything, `updateTime` included, is taken from the new report. -/
 def Node.setMetric (cfg : Cfg) (n : Node) (m : Metric) : Node :=
-  let ut := if m.hasUpd then some m.updT else n.updateTime
+  let ut := reportTime m
   { n with metric := some m, updateTime := ut, sums := scratch cfg m ut n.pods }
 
 /-- nodeInfo.DeleteNodeMetric -/
